@@ -70,6 +70,8 @@ def jobs(tier, seed):
                 out.append({'fn': 'history', 'cfg': {'kind': kind, 'first': first, 'depth': dep, 'default_date': dflt},
                             'opts': {'budget_s': 200 if tier == 'quick' else 1200}})
     out.append({'fn': 'empty_converter', 'cfg': {}})
+    for kind in ('year', 'month', 'day'):
+        out.append({'fn': 'moving_clock', 'cfg': {'kind': kind}})
     out.append({'fn': 'history', 'cfg': {'kind': 'month', 'first': 0, 'depth': 1, 'default_date': False, 'canary': True},
                 'canary': True})
     LAST_CONFIG_INFO.clear()
@@ -248,3 +250,46 @@ def empty_converter(E, cfg):
     E.check(conv.get_rate(cur[x], cur[y], d) is None, 'empty-converter-has-no-rate')
     C.expect_raises(E, lambda: conv(Money(a, cur[x]), cur[y], d), UnitConversionError, 'empty-converter-call-raises')
     E.check(conv.base_currency is cur['EUR'], 'base-currency')
+
+
+def moving_clock(E, cfg):
+    """the default effective date is asked from the configured callable at every look-up"""
+    from decimalfp import Decimal
+    from quantity.money import Money, MoneyConverter
+    cur = {c: Money.register_currency(c) for c in CURS}
+    d1, d2 = E.date('d1'), E.date('d2')
+    calls = []
+
+    def clock():
+        calls.append(1)
+        return d1 if len(calls) == 1 else d2
+    conv = MoneyConverter(cur['EUR'], get_dflt_effective_date=clock)
+    conv._rate_dict = C.ScanDict()
+    kind = cfg['kind']
+    ref = {}
+    for validity, specs in POOLS[kind][:4]:
+        conv.update(validity, [(cur[c], Decimal(a), m) for c, a, m in specs])
+        for c, a, m in specs:
+            ref[(_period_of(validity), c)] = Fraction(a) / m
+    a = E.rational('a', 'dec')
+    for i, d in enumerate((d1, d2)):
+        n0 = len(calls)
+        r = conv.get_rate(cur['EUR'], cur['USD'])
+        E.check(len(calls) == n0 + 1, 'clock-asked-once-per-look-up', key='clock:calls')
+        cases = [(_contains(E, k[0], d), v) for k, v in ref.items() if k[1] == 'USD']
+        if r is None:
+            E.check(E.Not(E.Or(False, *[c for c, _ in cases])), 'none-only-when-no-entry-for-the-current-default-date',
+                    key='clock:none-although-entry', info=[i])
+        else:
+            for cond, v in cases:
+                E.check(E.Implies(cond, r.rate == v), 'default-date-is-the-callables-current-answer',
+                        key='clock:stale-default-date', info=[i])
+            E.check(E.Or(False, *[c for c, _ in cases]), 'rate-only-when-entry-for-the-current-default-date',
+                    key='clock:rate-although-no-entry', info=[i])
+    m = Money(a, cur['EUR'])
+    n0 = len(calls)
+    try:
+        res = conv(m, cur['USD'])
+    except Exception:
+        res = None
+    E.check(len(calls) == n0 + 1, 'clock-asked-by-call', key='clock:calls')
